@@ -138,7 +138,7 @@ PROPS["C15"] = dict(
                "bulk delete, bulk rename) the SQL model returns step by step what a plain name->value map with per-name append-only logs returns, given literal-prefix filtering "
                "(an extracted fact; the LIKE variant is proved NOT to refine the map). Correspondence: every return value of the real SQLite store equals both models' on generated sequences "
                "over names with '_', '%', case variants and nested prefixes.",
-    level_note=LEVEL_NOTE + "Modelled rather than verified: each SQL statement as a list operation (SQLite semantics as modelled are an assumption validated by the runs); the file-backed ref store is not covered.",
+    level_note=LEVEL_NOTE + "Modelled rather than verified: each SQL statement as a list operation (SQLite semantics as modelled are an assumption validated by the runs); the file-backed ref store (pkg/ref/fs, pkg/misc/backward_scanner.go) has no concrete model: it is covered by correspondence only, against the same abstract map in its file-store form (stepAF: deleting an unbound name is an error, rename/copy replace a bound destination; C15_fs_same_elsewhere, C15_fs_conservative, C15_fs_rename_replaces, C15_fs_copy_replaces), on the domain listed in harness/c15.go (c15FsDomain).",
     lean_modules=["WrglModel.Props.C15"],
     quick_n=400, thorough_n=6000,
     rule="operation sequences (5..35 ops quick, ..65 thorough, then a full dump of refs and logs) of set / logged set / get / delete / "
@@ -323,7 +323,7 @@ _RULE_EXTRA = {
     "C11": "; walks from 3..5 start points with a repeated one",
     "C13": "; every write position also as a single injected write error (the operation continues): consistency, error reported or harmless, re-run; every crash point also as a recovery history (crash, a complete prune of the reopened repository, the operation again: same refs, every commit they reach and its table present, consistent); 1 in 4 cases: the fetch command's Fetch (default refspec) against the reference server, remote 1..3 commits ahead on main, optional second branch, 0..2 tags outside the refspec, 1..n packfiles; 1 in 4: one of the four kinds in a repository that also holds an unreachable commit",
     "C14": "; 1 in 5 scenarios inject the fault into discard (crash or single error at each of its store operations) and discard again; commit faults as crash or single error; 1 in 5 scenarios: the fault is one failing SQL statement inside the ref store (trigger: either statement of a branch's logged ref update, the status flip, a staged-ref delete, the transaction-row delete), then re-run / discard; 1 in 100 (thorough 1 in 400): branches made and the transaction staged by `wrgl commit --txid` (file argument / branch.file / --all in turn), dumped before and after staging and after each `wrgl transaction commit/discard` (one with a staged commit unreadable)",
-    "C15": "; 1 in 8 logged sets run with a failing reflog insert (SQL trigger): must fail and change nothing; 1 in 4 sequences: logged sets with generated author, action, time and transaction id (two ids or none), then logged set + copy/rename + log read of the target; log entries are compared in all their fields",
+    "C15": "; 1 in 8 logged sets run with a failing reflog insert (SQL trigger): must fail and change nothing; 1 in 4 sequences: logged sets with generated author, action, time and transaction id (two ids or none), then logged set + copy/rename + log read of the target; log entries are compared in all their fields; 1 in 5 sequences (tag store=fs): 60..130 ops (thorough 40..260) on the file-based store pkg/ref/fs over 17 file names and the names bulk renames make of them: three refs take most logged sets (entries of 60..400 bytes, generated author/e-mail/action/time, old value handed in as ref.SaveRef does), so logs reach dozens of entries over several 1024-byte chunks of the backward scanner; rename/copy also into directories that held no log; single-directory prefix listings, bulk delete/rename of remotes; logs read in between and for every name at the end",
     "C16": "; 1 in 4 cases: a merge of 2..3 branches (256..955 rows) with a deleted block / block index of base or branch or reads failing after k, under a 75 s watchdog, and without fault compared with the one-processor outcome; the table index is compared too; 1 in 4 of the rest: the commit command's ingest helper on a store that refuses the k-th write (must return the error, never hang); 1 in 5 of the rest: a progress bar created with total in {-1,0,1,5,10,1000}, moved by 0..4 Incr/SetTotal/SetCurrent calls, finished with Done() under a 20 s timer, compared with Model/PBar.lean",
     "C17": "; well-formed packfiles whose block decompresses but is invalid, or whose table object lies about its blocks (key index out of range, wrong row count, wrong width); every 4-byte window of small objects overwritten by a huge count; profiles declaring fewer field names; commit / table / profile bytes also read through the store getters",
     "C19": "; keyless tables over a tiny alphabet with the empty cell; the two outputs must agree also when keys repeat",
